@@ -5,7 +5,9 @@ pub open spec fn lower_char(c: char) -> char {
 pub open spec fn lower(a: Seq<char>) -> Seq<char> { a.map_values(|c: char| lower_char(c)) }
 /// ASCII case-insensitive equality
 pub open spec fn eq_ic(a: Seq<char>, b: Seq<char>) -> bool { lower(a) == lower(b) }
-/// substring test
+/// substring test (opaque: the units only need it as a name for what str::contains computes; keeping its quantifier
+/// out of the solver's way makes a wrong predicate fail fast instead of exhausting the resource limit)
+#[verifier::opaque]
 pub open spec fn seq_contains(a: Seq<char>, b: Seq<char>) -> bool {
     exists|i: int| 0 <= i && i + b.len() <= a.len() && #[trigger] a.subrange(i, i + b.len()) == b
 }
